@@ -756,9 +756,17 @@ func (h *harness) runCase(c *RunCase, idx int) {
 		log.add(Ev{K: "launch", Name: cm.Name, Inst: cm.Seq, Exe: cm.Executable, Args: cm.Args, EffEnv: effEnvOf(cm.Env), Dir: cm.Dir})
 	}
 	f.OnStop = func(cm *fakecmd.Cmd, sig int, parentOnly bool) {
+		if len(cm.Signals()) > 1 {
+			return // only the first signal is recorded; the command is already on its way out
+		}
 		log.add(Ev{K: "stop", Name: cm.Name, Inst: cm.Seq})
-		cm.Exit(-1)
-		log.add(Ev{K: "end", Name: cm.Name, Inst: cm.Seq})
+		// the command takes a moment to die: a supervisor that does not wait for the old instance
+		// would launch the new one before the "end" event
+		go func() {
+			time.Sleep(3 * time.Millisecond)
+			log.add(Ev{K: "end", Name: cm.Name, Inst: cm.Seq})
+			cm.Exit(-1)
+		}()
 	}
 	f.Install()
 	defer app.SetVerifHooks(nil)
@@ -769,10 +777,23 @@ func (h *harness) runCase(c *RunCase, idx int) {
 	runDone := make(chan error, 1)
 	defer func() {
 		if srv != nil {
-			srv.Close()
+			// Close waits for requests in flight; a request that never returns must not hang the harness
+			cd := make(chan struct{})
+			go func() { srv.CloseClientConnections(); srv.Close(); close(cd) }()
+			select {
+			case <-cd:
+			case <-time.After(2 * time.Second):
+				h.st["http_server_close_hung"]++
+			}
 		}
 		if runner != nil {
-			_ = runner.ShutDownProject()
+			sd := make(chan struct{})
+			go func() { _ = runner.ShutDownProject(); close(sd) }()
+			select {
+			case <-sd:
+			case <-time.After(3 * time.Second):
+				h.st["shutdown_did_not_return"]++
+			}
 			select {
 			case <-runDone:
 			case <-time.After(3 * time.Second):
@@ -785,7 +806,13 @@ func (h *harness) runCase(c *RunCase, idx int) {
 		}
 	}()
 	var bootEnv []string
+	hung := false
 	for si, stp := range c.Steps {
+		if hung {
+			c.Skip = fmt.Sprintf("step %d: abandoned after a call that did not return", si)
+			c.Steps = c.Steps[:si]
+			break
+		}
 		spec := stp.Spec
 		y := projYAML(&spec, ge)
 		file := filepath.Join(dir, fmt.Sprintf("p%d.yaml", si))
@@ -841,14 +868,35 @@ func (h *harness) runCase(c *RunCase, idx int) {
 			host, port, _ := net.SplitHostPort(srv.Listener.Addr().String())
 			pn, _ := strconv.Atoi(port)
 			cl = client.NewTcpClient(host, pn, 100)
-		case "direct":
-			status, cerr = runner.UpdateProject(proj)
-		case "reload":
-			status, cerr = runner.ReloadProject()
-		case "rest":
-			status, cerr = cl.UpdateProject(proj)
-		case "restreload":
-			status, cerr = cl.ReloadProject()
+		default:
+			// the call runs under a watchdog: a supervisor that blocks for ever must not hang the check
+			type ret struct {
+				st  map[string]string
+				err error
+			}
+			ch := make(chan ret, 1)
+			go func(mode string) {
+				var r ret
+				switch mode {
+				case "direct":
+					r.st, r.err = runner.UpdateProject(proj)
+				case "reload":
+					r.st, r.err = runner.ReloadProject()
+				case "rest":
+					r.st, r.err = cl.UpdateProject(proj)
+				case "restreload":
+					r.st, r.err = cl.ReloadProject()
+				}
+				ch <- r
+			}(stp.Mode)
+			select {
+			case r := <-ch:
+				status, cerr = r.st, r.err
+			case <-time.After(6 * time.Second):
+				cerr = fmt.Errorf("timeout: the update call did not return within 6 s")
+				h.st["update_call_hung"]++
+				hung = true
+			}
 		}
 		if cerr != nil {
 			out.Err = cerr.Error()
